@@ -75,6 +75,11 @@ func runKVCase[K comparable](c *core.Ctx, kind string, d *Dom[K], keyOf func(int
 }
 
 func runC01(c *core.Ctx) {
+	if plans := exhaustivePlans(c.Tier); c.Index < len(plans) {
+		p := plans[c.Index]
+		exhaustiveTree(c, p.label, p.mk, p.k, 400000, func(m *KVMon[int, int]) { m.Map = true }, nil)
+		return
+	}
 	kind := kvKinds[c.Index%len(kvKinds)]
 	if c.Index%len(kvKinds) >= 4 && (c.Index/len(kvKinds))%2 == 1 {
 		kind = kvKinds[(c.Index/len(kvKinds)/2)%3] // weight towards the three trees
@@ -98,12 +103,14 @@ func init() {
 		Title: "Key-value containers behave as a map under every history",
 		Cases: func(tier string) int { return tierN(tier, 30000, 600000) },
 		Run:   runC01,
-		Rule: "one container per case (RedBlackTree, AVLTree, BTree of order 3..12,16,32,64, TreeMap, HashMap, LinkedHashMap, HashBidiMap, TreeBidiMap; natural, reversed or coarsened comparator; int or string keys) driven by one workload family: " +
+		Rule: "the first cases explore small universes exhaustively: for RedBlackTree, AVLTree (k <= 8 keys quick / 10 thorough) and BTree of order 3..6 (k <= 9 / 11, orders up to 8) every state reachable from the empty tree by Put/Remove is visited breadth-first and every call is made from it under the monitor (see exhaustive_small_scope). The other cases: " +
+			"one container per case (RedBlackTree, AVLTree, BTree of order 3..12,16,32,64, TreeMap, HashMap, LinkedHashMap, HashBidiMap, TreeBidiMap; natural, reversed or coarsened comparator; int or string keys) driven by one workload family: " +
 			"dense random Put/Remove/Get/Clear over a 4-12 key alphabet, build-then-drain in six order families, churn at a fixed size, sliding window, one-sided drain; ~70% of sizes <= 24, ~25% <= 300, ~5% up to 1500 (quick) / 5000 (thorough). " +
 			"Values are unique per Put. After every call: Get of the touched key and 5 probe keys, Size, Empty; Keys/Values (exactly-once, alignment) on every call while n <= 64, every 16th otherwise; remove-absent compares full snapshots. " +
 			"Every case is non-trivial (>= 30 calls incl. removals of present keys); distinct = distinct hash of the call list.",
 		Floors: func(tier string, m map[string]int64) []string {
 			f := &floorCheck{m: m}
+			exhaustiveFloors(tier, f)
 			f.atLeast("remove:RedBlackTree-two-children", 1000)
 			f.atLeast("remove:AVLTree-two-children", 1000)
 			f.atLeast("remove:BTree-inner-node", 1000)
